@@ -18,6 +18,18 @@
 (* returned = bytes handed to the caller.                                  *)
 (* Invariants: buffered <= lim (+1 for probe); returned <= lim; final      *)
 (* outcome = Expected(lim, total) for EVERY split into pieces.             *)
+(*                                                                         *)
+(* Two things the reader must NOT depend on are explicit dimensions:       *)
+(*   precap  the capacity the destination buffer already has when the call *)
+(*           starts ("fresh", "small" <= lim, "big" > every total): a      *)
+(*           reused Response/Request object, a caller-supplied dst         *)
+(*   claim   what the stream says about its own size (gzip ISIZE trailer   *)
+(*           of the last member): "true", "low" (<= lim although the real  *)
+(*           total may be larger), "high" (> lim).  For "probe" inputs the *)
+(*           pieces are the members / frames of a concatenated stream.     *)
+(* No action reads precap or claim: the outcome is a function of lim and   *)
+(* the real total.  (With a lying claim and total <= lim the decoder may   *)
+(* also report corruption: Expected is "any" there.)                       *)
 (***************************************************************************)
 EXTENDS VerifLib
 
@@ -30,19 +42,22 @@ RECURSIVE Comps(_)
 Comps(n) == IF n = 0 THEN { <<>> }
             ELSE UNION { { <<k>> \o c : c \in Comps(n - k) } : k \in 1..n }
 
-Expected(l, t) == IF t <= l THEN "accepted" ELSE "rejected"
+Expected(l, t, c) == IF t > l THEN "rejected" ELSE IF c = "true" THEN "accepted" ELSE "any"
+PreCaps(k) == IF k = "head" THEN {"fresh"} ELSE {"fresh", "small", "big"}
+Claims(k) == IF k = "probe" THEN {"true", "low", "high"} ELSE {"true"}
 
-VARIABLES lim, kind, total, pieces, buffered, st, returned
-vars == <<lim, kind, total, pieces, buffered, st, returned>>
+VARIABLES lim, kind, total, pieces, buffered, st, returned, precap, claim
+vars == <<lim, kind, total, pieces, buffered, st, returned, precap, claim>>
 
 Init == /\ lim \in 1..MaxL /\ kind \in Kinds
         /\ total \in 0..(2 * lim + 1)
         /\ pieces \in Comps(total)
+        /\ precap \in PreCaps(kind) /\ claim \in Claims(kind)
         /\ buffered = 0 /\ st = "reading" /\ returned = 0
 
 \* "fixed": the declared size alone decides, before anything is buffered
 RejectDeclared == /\ st = "reading" /\ kind = "fixed" /\ buffered = 0 /\ total > lim
-                  /\ st' = "rejected" /\ UNCHANGED <<lim, kind, total, pieces, buffered, returned>>
+                  /\ st' = "rejected" /\ UNCHANGED <<lim, kind, total, pieces, buffered, returned, precap, claim>>
 
 \* buffer the next piece when it is known to fit
 Admit == /\ st = "reading" /\ pieces # <<>>
@@ -50,12 +65,12 @@ Admit == /\ st = "reading" /\ pieces # <<>>
          /\ kind # "probe"
          /\ buffered + pieces[1] <= lim
          /\ buffered' = buffered + pieces[1] /\ pieces' = Tail(pieces)
-         /\ UNCHANGED <<lim, kind, total, st, returned>>
+         /\ UNCHANGED <<lim, kind, total, st, returned, precap, claim>>
 
 \* "chunked"/"head": the next piece is declared/known not to fit: reject without buffering it
 RejectPiece == /\ st = "reading" /\ pieces # <<>> /\ kind \in {"chunked", "head"}
                /\ buffered + pieces[1] > lim
-               /\ st' = "rejected" /\ UNCHANGED <<lim, kind, total, pieces, buffered, returned>>
+               /\ st' = "rejected" /\ UNCHANGED <<lim, kind, total, pieces, buffered, returned, precap, claim>>
 
 \* "probe": read through a window of lim+1-buffered units; seeing unit lim+1 means too large
 Probe == /\ st = "reading" /\ pieces # <<>> /\ kind = "probe"
@@ -63,11 +78,11 @@ Probe == /\ st = "reading" /\ pieces # <<>> /\ kind = "probe"
               /\ buffered' = buffered + got
               /\ pieces' = IF got = pieces[1] THEN Tail(pieces) ELSE <<pieces[1] - got>> \o Tail(pieces)
               /\ st' = IF buffered + got > lim THEN "rejected" ELSE "reading"
-         /\ UNCHANGED <<lim, kind, total, returned>>
+         /\ UNCHANGED <<lim, kind, total, returned, precap, claim>>
 
 Finish == /\ st = "reading" /\ pieces = <<>>
           /\ st' = "accepted" /\ returned' = buffered
-          /\ UNCHANGED <<lim, kind, total, pieces, buffered>>
+          /\ UNCHANGED <<lim, kind, total, pieces, buffered, precap, claim>>
 
 Next == RejectDeclared \/ Admit \/ RejectPiece \/ Probe \/ Finish
 Spec == Init /\ [][Next]_vars /\ WF_vars(Next)
@@ -76,5 +91,5 @@ Bounded == buffered <= lim + Slack(kind) /\ returned <= lim
 Outcome == /\ st = "accepted" => returned = total /\ total <= lim
            /\ st = "rejected" => total > lim /\ returned = 0
 NoStall == st = "reading" => ENABLED Next
-Decides == <>(st = Expected(lim, total))
+Decides == <>(st \in {"accepted", "rejected"} /\ Expected(lim, total, claim) \in {st, "any"})
 =============================================================================
